@@ -17,7 +17,8 @@
 (*   of SilkEncCtl_mc and the tables (drift), and the clauses that listed    *)
 (*   properties state are judged as prop:                                    *)
 (*    C11  a SILK-coded packet's internal rate never exceeds the maximum     *)
-(*         bandwidth in force (unchanged for three audio packets) nor         *)
+(*         bandwidth that was in force before the first frame (a later       *)
+(*         change goes through the 2.5 s transition: not asserted) nor        *)
 (*         Nyquist; a forced channel count in force for three audio packets   *)
 (*         is the SILK encoder's nChannelsInternal                           *)
 (*    C05  1 <= length <= max_data_bytes                                     *)
@@ -76,7 +77,8 @@ JudgeCall(e, m) ==
   LET c    == CtlOf(e.cin)
       post == SOf(e)
       outs(r) == <<r.out, IF r.ready THEN 1 ELSE 0, r.maxBits, AllowOut(r.s), InWBOut(r.s), IntRateOut(r.s)>>
-      obs  == <<e.out, e.sr, e.mbo, e.al, e.wb, e.ir>>
+      \* (a call that only buffers half a frame leaves *nBytesOut untouched)
+      obs  == <<IF e.pf = 0 /\ post.ch[1].ibx > 0 THEN 0 ELSE e.out, e.sr, e.mbo, e.al, e.wb, e.ir>>
       R    == {Encode(m, c, e.pf, e.nblk, e.av, OracleOf(e, c, post, lb)) : lb \in LbCands(m, post)}
       full == {r \in R : r.ret = 0 - e.ret /\ r.ok /\ r.s = post /\ outs(r) = obs}
       any  == CHOOSE r \in R : TRUE
@@ -219,7 +221,7 @@ Step ==
             \E v \in {JudgeOpus(e, tg)} :
               /\ ts' = SOf(e) /\ Verdict(v) /\ tt' = tt \cup v.tags /\ Finish(tt')
               /\ tg' = [tg EXCEPT !.started = TRUE, !.fcAge = IF v.audio THEN Min(2, tg.fcAge + 1) ELSE tg.fcAge,
-                                  !.mbAge = IF v.audio THEN Min(2, tg.mbAge + 1) ELSE tg.mbAge, !.prevFs = v.prevFs, !.prevMode = v.mode]
+                                  !.prevFs = v.prevFs, !.prevMode = v.mode]
        [] OTHER -> UNCHANGED <<ts, tg, tt>> /\ Finish(tt)
   /\ tl' = tl + 1
 
